@@ -189,6 +189,39 @@ class C16Bounded(Bounded):
             ran = os.path.exists(marker + ("_vars" if inside else "_sibling"))
             if ran != inside:
                 fails.append({"text": f"vars file {vf} with allowed base {os.path.dirname(varsfile)}: executed={ran}, expected {inside}", "input": [vf]})
+        # ... also when the item names the foreign directory itself in another option (the template directory `path`), or reaches it by a
+        # relative path / a link that starts inside the allowed directory
+        open(os.path.join(os.path.dirname(sibling), "t.j2"), "w").write("{{ query }}")
+        try:
+            os.symlink(sibling, os.path.join(os.path.dirname(varsfile), "link.py"))
+        except OSError:
+            pass
+        foreign = [("template directory is the foreign directory", {"type": "template", "path": os.path.dirname(sibling), "template": "t.j2", "vars": sibling}),
+                   ("relative path through ..", {"type": "template", "template": "{{ query }}", "vars": os.path.join(os.path.dirname(varsfile), "..", "vars_shared", "v.py")}),
+                   ("relative name resolved below the allowed directory, with ..", {"type": "template", "template": "{{ query }}", "vars": os.path.join("..", "vars_shared", "v.py")}),
+                   ("link inside the allowed directory", {"type": "template", "template": "{{ query }}", "vars": os.path.join(os.path.dirname(varsfile), "link.py")}),
+                   ("relative link name", {"type": "template", "template": "{{ query }}", "vars": "link.py"})]
+        for label, item in foreign:
+            for section in ("postprocessing", "finalizers"):
+                ev += 1
+                nontriv += 1
+                if os.path.exists(marker + "_sibling"):
+                    os.unlink(marker + "_sibling")
+                it2 = dict(item)
+                if section == "finalizers":
+                    it2["template"] = "t.j2" if "path" in it2 else "{{ queries }}"
+                cwd = os.getcwd()
+                try:
+                    os.chdir(root)          # (relative names must not be found through the working directory either)
+                    ProcessingPipeline.from_dict({section: [it2]}, allow_template_vars=True, vars_allowed_paths=(os.path.dirname(varsfile),))
+                except SigmaError:
+                    pass
+                except Exception:
+                    pass
+                finally:
+                    os.chdir(cwd)
+                if os.path.exists(marker + "_sibling"):
+                    fails.append({"text": f"vars file outside the allowed directory executed ({label}, {section}): item {it2}, allowed base {os.path.dirname(varsfile)}", "input": [label, section]})
         # the YAML text of a pipeline is data: tags that construct Python objects are not honoured (default arguments, every loader)
         evil_yaml = [f"name: p\ntransformations: []\nvars:\n  x: !!python/object/apply:os.system ['touch {marker}_cmd']\n",
                      f"name: p\npriority: !!python/object/apply:subprocess.check_output [['touch', '{marker}_cmd']]\ntransformations: []\n",
